@@ -349,7 +349,7 @@ def main(a):
 
     ninv = sum(1 for j in jobs if j[0] == "run_fit" and j[1][0] == "invariants")
     res = Result("C12", f"recovery: {len(FAMILIES)} families x {nrec} seeded parameter sets (R0 over 3 decades, R_k/R0 over 2 decades, time constants over 3.5 decades inside 1e-2..1e5 Hz, 71 points) x start perturbed by up to x3, "
-                 f"method/weight 'auto' (9 x 4 fits each); invariants: {ninv} single fits over {len(methods)} methods x {len(weights)} weights x {len(variants)} variants "
+                 f"method/weight 'auto' (9 x 4 fits each); invariants: {ninv} single fits over {len(methods)} methods x {len(weights)} weights x {len({j[1][3] for j in jobs if j[0] == 'run_fit' and j[1][0] == 'invariants'})} variants "
                  f"(fixed subsets, tightened boxes, boxes excluding the truth, ratio/offset constraint expressions and combinations) x 6 families; "
                  f"{sum(1 for j in jobs if j[0] == 'run_deepcopy_limits')} fits of a circuit with raised capacitor limits",
                  "seeded random generating parameters inside the identifiable region of each family; invariants rotate families over the full (method, weight, variant) product "
